@@ -152,6 +152,16 @@ func check(c Case) (*vk.Violation, bool) {
 		vk.Retain(name+".Decode", dec)
 	}
 	if derr == nil && string(dec) == s {
+		if vk.RetainEnabled {
+			// the caller is done with the bytes it was given (it recycles the buffer) and encodes the SAME text
+			// again at once - the next message to the next recipient: it must get the same bytes, not its old buffer
+			saved := append([]byte{}, enc...)
+			vk.Overwrite(enc)
+			enc2, err2 := codec(c.Codec, []byte(s)).Encode()
+			if err2 != nil || !bytes.Equal(enc2, saved) {
+				return vk.Violf(name+"/second-encode-of-the-same-text-differs", c, "%s.Encode(%q) a second time, after the caller had overwritten the first result, returned %x, %v instead of %x: a result that was handed out is kept and served again", name, s, clipb(enc2), err2, clipb(saved)), true
+			}
+		}
 		return nil, true
 	}
 	// carve-outs
@@ -560,7 +570,7 @@ func TestUcs2Helpers(t *testing.T) {
 }
 
 func checkProtoEncoder(c ProtoCase, s string) *vk.Violation {
-	if s == "" || len(s) > 60 {
+	if s == "" || len(s) > 900 {
 		return nil
 	}
 	for _, r := range s {
@@ -586,6 +596,9 @@ func checkProtoEncoder(c ProtoCase, s string) *vk.Violation {
 	})
 	if pn != "" {
 		return vk.Violf(c.Proto+"/encoder-panic", c, "panic\n%s", pn)
+	}
+	if i, j, sh := vk.SharedSpare(parts); sh {
+		return vk.Violf(c.Proto+"/encoder-parts-share-memory", c, "appending to part %d (writing into its spare capacity) changed part %d of the same result", i+1, j+1)
 	}
 	if err != nil || len(parts) != 1 || (c.Proto == "smpp" && act == 99) {
 		return nil
@@ -624,4 +637,11 @@ func selectorViolation(name string, n int, text string, got, viaNew dc.Codec, wa
 		return vk.Violf(name+"/unsupported-number-not-UCS2", c, "%s(%d, %q): the number is not supported, the documented default is UCS-2, but Encode() = %x, %v (UTF-16BE is %x)", name, n, text, ge, gerr, want16)
 	}
 	return nil
+}
+
+func clipb(b []byte) []byte {
+	if len(b) > 40 {
+		return b[:40]
+	}
+	return b
 }
